@@ -484,6 +484,21 @@ def subscript(self, base, idx):
     at = base.single_atom()
     if at is not None and at.kind == 'ite':
         return T.mk_ite(at.args[0], self.subscript(at.args[1], idx), self.subscript(at.args[2], idx))
+    if at is not None and at.kind in ('tuple', 'list') and ia0 is not None and ia0.kind == 'slice':
+        # literal[:self.n] where the constructor restricts n to a few constants: one alternative per value
+        lo, hi, st = ia0.args
+        ha = hi.single_atom()
+        if ha is not None and ha.kind == 'attr' and isinstance(ha.args[1], str) and T._isnone(st) and lo.const() is not None:
+            ci = self.class_of(ha.args[0])
+            dom = None
+            for c in (ci.mro() if ci is not None else []):
+                dom = dom or getattr(self.prog, 'attr_domains', {}).get((c.qual, ha.args[1]))
+            if dom:
+                vals = sorted(dom, reverse=True)
+                out = T.mk_sub(base, T.mk_slice(lo, Term.num(vals[-1]), st))
+                for v in reversed(vals[:-1]):
+                    out = T.mk_ite(T.mk_cmp('==', hi, Term.num(v)), T.mk_sub(base, T.mk_slice(lo, Term.num(v), st)), out)
+                return out
     return T.mk_sub(base, idx)
 
 
